@@ -209,7 +209,7 @@ def mentions(fs: Iterable, needle: str) -> list:
 # ---------------------------------------------------------------------------------------------------------------------
 # path conditions (DNF): every way of reaching a node from the function entry, as sets of canonical atoms
 # ---------------------------------------------------------------------------------------------------------------------
-def path_conditions(func_node: ast.AST, target: ast.AST, limit: int = 512) -> list:
+def path_conditions(func_node: ast.AST, target: ast.AST, limit: int = 512, kill_rebound: bool = True) -> list:
     """[set(atoms)] - one set per syntactic path from the entry of `func_node` to the statement containing `target`.
 
     If-tests contribute their atoms (either polarity); loops contribute their test on entry and nothing after; a
@@ -226,6 +226,8 @@ def path_conditions(func_node: ast.AST, target: ast.AST, limit: int = 512) -> li
     results = []
 
     def kill(conds: frozenset, stmt) -> frozenset:
+        if not kill_rebound:
+            return conds          # "the decision was taken under these tests", whatever was stored afterwards
         names = set()
         for n in ast.walk(stmt):
             if isinstance(n, ast.Name) and isinstance(n.ctx, (ast.Store, ast.Del)):
